@@ -176,6 +176,87 @@ theorem coherent_clean (env : Env) (a : Atom) (c : Clause Ver) (hw : a.WF)
     (hv : SpecParse.parseVer (trimS t) = some v) (hf : v.isFinal = true) : a.Coherent env :=
   coherent_plain env a c hw hn hop hr (lexOne_of_clean a c hop hcl hp) t v ht hv hf
 
+/-! ### literal-on-the-left atoms -/
+
+/-- the written operator of a reversed atom, as a clause operator -/
+def cReflect : COp → COp
+  | .lt => .gt | .le => .ge | .gt => .lt | .ge => .le | o => o
+
+/-- lexing facts for a reversed atom in an environment whose value for the variable is `t`:
+    `_evaluate` reads `Specifier(written_op + t)` and parses the literal as the candidate -/
+structure LexRev (a : Atom) (t : String) (cop : COp) (w v : Ver) : Prop where
+  view : LexOne a ⟨cop, w, false⟩
+  op : a.op = MOp.ofCOp cop
+  notCompat : cop ≠ .compat
+  envClause : SpecParse.parseClauseL (a.op.reflect.str ++ trimS t).toList = some ⟨cReflect cop, v, false⟩
+  literal : SpecParse.parseVer (trimS a.value) = some w
+
+/-- `"3.8" < python_version` and friends: evaluating with the environment's value as the
+    specifier and the literal as the candidate agrees with the atom's specifier view
+    (final versions on both sides; ordering and equality operators) -/
+theorem coherent_reversed (env : Env) (a : Atom) (cop : COp) (w v : Ver) (hw : a.WF)
+    (hn : versionLikeNames.contains a.name = true) (hr : a.reversed = true)
+    (t : String) (ht : env a.name = some (.str t)) (hl : LexRev a t cop w v)
+    (hv : SpecParse.parseVer (trimS t) = some v) (hf : v.isFinal = true) (hwf : w.isFinal = true) :
+    a.Coherent env := by
+  have hopn : a.op ≠ .in_ ∧ a.op ≠ .notIn := by
+    rw [hl.op]; cases cop <;> simp [MOp.ofCOp]
+  have hne : (a.op == MOp.in_ || a.op == MOp.notIn) = false := by
+    cases hop' : a.op <;> simp_all
+  -- the specifier view, as in `coherent_plain`
+  unfold Atom.WF getSpecifier at hw
+  simp only [hn, Bool.not_true, Bool.false_eq_true, if_false, hne] at hw
+  simp only [parseSpecOpt, SpecParse.parseSpecString, hl.view.set, Option.map_some] at hw
+  simp only [parseAlts, List.foldl_nil, parseAlt, fromSpecifierSet, List.foldl_cons, Option.bind_some] at hw
+  cases hfc : fromClause (⟨cop, w, false⟩ : Clause Ver) with
+  | none => simp [hfc] at hw
+  | some s0 =>
+    simp only [hfc, Option.map_some] at hw
+    have hspec : a.spec = .ver ((Spec.range {}).and s0) := by
+      simp only [Option.map_some, Option.some.injEq] at hw; exact hw.symm
+    have hvn : versionEvalNames.contains a.name = true := by
+      simp only [versionLikeNames, List.contains_cons, List.contains_nil, Bool.or_false, Bool.or_eq_true, beq_iff_eq] at hn
+      rcases hn with h | h | h <;> simp [versionEvalNames, h]
+    have hnx : (a.name == "extra") = false := by
+      simp only [versionLikeNames, List.contains_cons, List.contains_nil, Bool.or_false, Bool.or_eq_true, beq_iff_eq] at hn
+      rcases hn with h | h | h <;> simp [h]
+    have hns : (a.name == "extras" || a.name == "dependency_groups") = false := by
+      simp only [versionLikeNames, List.contains_cons, List.contains_nil, Bool.or_false, Bool.or_eq_true, beq_iff_eq] at hn
+      rcases hn with h | h | h <;> simp [h]
+    have hopr : a.op.reflect ≠ .in_ ∧ a.op.reflect ≠ .notIn := by
+      rw [hl.op]; cases cop <;> simp [MOp.ofCOp, MOp.reflect]
+    unfold Atom.Coherent
+    rw [hspec, holds_ver, envVer, ht]
+    simp only [hv]
+    simp only [sem, Atom.eval, hnx, Bool.false_eq_true, if_false, ht, hns, hr, hvn, if_true]
+    rw [specContains_eq a.op.reflect hopr t a.value _ hl.envClause w hl.literal hwf]
+    have hm0 : ∃ b0, Pep440.matchesFinal ⟨cReflect cop, v, false⟩ { release := [0] } = some b0 := by
+      have hnc := hl.notCompat
+      cases cop <;> first | exact absurd rfl hnc | exact ⟨_, rfl⟩
+    obtain ⟨b0, hb0⟩ := hm0
+    simp only [hb0]
+    -- the view side through C04
+    have hmv : ∃ b, Pep440.matchesFinal ⟨cop, w, false⟩ v = some b := by
+      have hnc := hl.notCompat
+      cases cop <;> first | exact absurd rfl hnc | exact ⟨_, rfl⟩
+    obtain ⟨b, hb⟩ := hmv
+    have hview := C04.leaf_exact ⟨cop, w, false⟩ v hf s0 b hfc hb
+    have hdual : Pep440.matchesFinal ⟨cReflect cop, v, false⟩ w = some b := by
+      have hnc := hl.notCompat
+      rw [← hb]
+      cases cop
+      case compat => exact absurd rfl hnc
+      case eq =>
+        simp only [Pep440.matchesFinal, cReflect, Option.some.injEq, decide_eq_decide]
+        exact And.comm
+      case ne =>
+        simp only [Pep440.matchesFinal, cReflect, Option.some.injEq, Bool.not_eq_eq_eq_not, Bool.not_not, decide_eq_decide]
+        exact And.comm
+      all_goals rfl
+    rw [hdual]
+    simp only [Option.getD_some]
+    rw [Bool.eq_iff_iff, hview, decide_eq_true_iff, any_and_mem]
+
 /-- non-vacuity: `python_full_version ~= "3.8.1"` is well-formed and lexes to one clause -/
 example : let a : Atom := ⟨"python_full_version", .compat, "3.8.1", false,
       .ver (.range { min := some { release := [3, 8, 1] }, max := some { release := [3, 9, 0] }, incMin := true,
